@@ -11,6 +11,7 @@ var singleVariants = []string{
 	"read-direct", "write-direct", "read-in-callee", "write-in-callee", "extract-with-args-1", "extract-with-args-2",
 	"extract-middle-param", "two-singletons", "nested-extraction", "callee-write-caller-read", "list-field-push", "loop-of-calls",
 	"extract-in-recursion", "singleton-of-list-type", "singleton-of-int-type",
+	"impl-method", "impl-method-with-early-return", "impl-method-called-by-a-function-and-a-closure", "impl-two-blocks-for-two-singletons", "impl-method-and-plain-extraction",
 }
 
 func singleCount() int { return len(singleVariants) * 2 }
@@ -68,6 +69,31 @@ func singleGen(idx int) (progCase, bool) {
 		prog.Singletons = []hs.SingletonDecl{{Name: "S", T: hs.TList(hs.TInt)}}
 		add(hs.Fn("add", nil, hs.Blk(nil, hs.ES(hs.MCall(hs.V("self"), "push", hs.V("v")))), self, hs.P("v", hs.TInt)))
 		body = []hs.Stmt{hs.ES(hs.CallN("add", hs.I(1))), hs.ES(hs.CallN("add", hs.I(2))), hs.Println(&hs.Single{Name: "S"})}
+	case "impl-method", "impl-method-with-early-return", "impl-method-called-by-a-function-and-a-closure", "impl-two-blocks-for-two-singletons", "impl-method-and-plain-extraction":
+		// the methods of an impl block are functions that extract their singleton
+		prog.Imports = append(prog.Imports, hs.Import{Names: []string{"templ FooFeature"}, From: "templates"})
+		dimBody := hs.Blk(hs.B(true), hs.Println(hs.S("dim"), hs.V("percent"), hs.Mem(hs.V("self"), "n")), hs.ES(hs.Asg("=", hs.Mem(hs.V("self"), "n"), hs.V("percent"))))
+		if v != "impl-method" {
+			dimBody = hs.Blk(hs.B(true),
+				hs.ES(&hs.If{Cond: hs.Bin("==", hs.Mem(hs.V("self"), "n"), hs.V("percent")), Then: hs.Blk(nil, &hs.Return{X: hs.B(false)})}),
+				hs.ES(hs.Asg("=", hs.Mem(hs.V("self"), "n"), hs.V("percent"))))
+		}
+		dim := &hs.Func{Name: "dim", Params: []hs.Param{self, hs.P("percent", hs.TInt)}, Ret: hs.TBool, Body: dimBody}
+		prog.Impls = append(prog.Impls, &hs.ImplBlock{Template: "FooFeature", Caps: []string{"light"}, Singleton: "S", Methods: []*hs.Func{dim}})
+		body = []hs.Stmt{hs.Println(hs.CallN("dim", hs.I(40))), hs.Println(hs.CallN("dim", hs.I(40))), hs.Println(sn())}
+		switch v {
+		case "impl-method-called-by-a-function-and-a-closure":
+			add(hs.Fn("twice", hs.TInt, hs.Blk(hs.Mem(hs.V("s"), "n"), hs.ES(hs.CallN("dim", hs.V("to"))), hs.ES(hs.CallN("dim", hs.Bin("+", hs.V("to"), hs.I(1))))), hs.P("to", hs.TInt), hs.Param{Name: "s", Single: "S"}))
+			body = append(body, hs.Println(hs.CallN("twice", hs.I(7))), hs.LetS("c", &hs.FnLit{Params: []hs.Field{{Name: "p", T: hs.TInt}}, Ret: hs.TBool, Body: hs.Blk(hs.CallN("dim", hs.V("p")))}), hs.Println(hs.CallN("c", hs.I(8)), hs.CallN("c", hs.I(9))), hs.Println(sn()))
+		case "impl-two-blocks-for-two-singletons":
+			prog.Singletons = append(prog.Singletons, hs.SingletonDecl{Name: "T", T: hs.TObj(hs.Field{Name: "deg", T: hs.TFloat})})
+			setTemp := &hs.Func{Name: "set_temp", Params: []hs.Param{{Name: "t", Single: "T"}, hs.P("celsius", hs.TFloat)}, Body: hs.Blk(nil, hs.ES(hs.Asg("=", hs.Mem(hs.V("t"), "deg"), hs.V("celsius"))))}
+			prog.Impls = append(prog.Impls, &hs.ImplBlock{Template: "FooFeature", Caps: []string{"temperature"}, Singleton: "T", Methods: []*hs.Func{setTemp}})
+			body = append(body, hs.ES(hs.CallN("set_temp", hs.F(21.5))), hs.Println(hs.Mem(&hs.Single{Name: "T"}, "deg"), sn()))
+		case "impl-method-and-plain-extraction":
+			add(hs.Fn("peek", hs.TInt, hs.Blk(hs.Mem(hs.V("d"), "n")), hs.Param{Name: "d", Single: "S"}))
+			body = append(body, hs.Println(hs.CallN("peek")), hs.ES(hs.Asg("+=", sn(), hs.I(1))), hs.Println(hs.CallN("dim", hs.I(41)), hs.CallN("peek")))
+		}
 	case "singleton-of-int-type":
 		prog.Singletons = []hs.SingletonDecl{{Name: "S", T: hs.TInt}}
 		add(hs.Fn("get", hs.TInt, hs.Blk(hs.V("self")), self))
